@@ -53,7 +53,7 @@ def run_script(path, argv, world, capture):
 
     def tapped(self, *a, **k):
         r = real_compile(self, *a, **k)
-        capture.maps.append(r)
+        capture.maps.append(dict(r) if isinstance(r, dict) else r)      # what compile() returned, not what the script makes of it later
         return r
     pc.MibCompiler.compile = tapped
     old_argv, old_err = sys.argv, sys.stderr
